@@ -80,6 +80,27 @@ func twoKeyHandle(t1, t2 *tinkpb.KeyTemplate) *keyset.Handle {
 	return must(m.Handle())
 }
 
+// multiKeyHandle: keys from the given templates, all enabled, the LAST one primary – so that outputs of the
+// primary and of older keys are matched by candidates that are not the first entry of the wrapper's list.
+func multiKeyHandle(ts ...*tinkpb.KeyTemplate) *keyset.Handle {
+	m := keyset.NewManager()
+	var id uint32
+	for _, t := range ts {
+		id = must(m.Add(t))
+	}
+	if err := m.SetPrimary(id); err != nil {
+		panic(err)
+	}
+	return must(m.Handle())
+}
+
+// singleKeyHandleOf returns a one-key handle holding the i-th key of hd (used to produce inputs made by a non-primary key).
+func singleKeyHandleOf(hd *keyset.Handle, i int) *keyset.Handle {
+	ks := insecurecleartextkeyset.KeysetMaterial(hd)
+	k := proto.Clone(ks.Key[i]).(*tinkpb.Keyset_Key)
+	return must(testkeyset.NewHandle(&tinkpb.Keyset{PrimaryKeyId: k.KeyId, Key: []*tinkpb.Keyset_Key{k}}))
+}
+
 func threads22(a1, a2, b1, b2 call) [][]call { return [][]call{{a1, a2}, {b1, b2}} }
 
 // ---- AEAD ---------------------------------------------------------------------------------------------
@@ -340,6 +361,102 @@ func jwtSigScen() {
 		return &built{newShared: func() any { return mk() },
 			threads: threads22(sign("alice"), ver("B", tB), sign("bob"), ver("A", tA)),
 			probes:  []call{ver("A", tA)}}
+	})
+}
+
+// Multi-key JWT keysets: tokens made by the OLDEST and by the NEWEST key are verified concurrently through one
+// shared verifier (every candidate position is exercised; a wrapper that reorders / caches its candidates shows).
+func jwtMultiKeyScen() {
+	add("jwt-sig-three-keys", func() *built {
+		priv := multiKeyHandle(jwt.ES256Template(), jwt.RawES256Template(), jwt.ES256Template())
+		pub := must(priv.Public())
+		mk := func() jwt.Verifier { return must(jwt.NewVerifier(pub)) }
+		val := jwtValidator()
+		tok := func(i int, sub string) string {
+			return must(must(jwt.NewSigner(singleKeyHandleOf(priv, i))).SignAndEncode(jwtRaw(sub)))
+		}
+		t0, t1, t2 := tok(0, "by-key-0"), tok(1, "by-key-1"), tok(2, "by-key-2")
+		ver := func(n, tk string) call {
+			return call{"VerifyAndDecode(" + n + ")", func(sh any) string { return renderJWT(sh.(jwt.Verifier).VerifyAndDecode(tk, val)) }}
+		}
+		return &built{newShared: func() any { return mk() },
+			threads: threads22(ver("key2", t2), ver("key0", t0), ver("key1", t1), ver("key2", t2)),
+			probes:  []call{ver("key0", t0), ver("key1", t1), ver("key2", t2)}}
+	})
+	add("jwt-mac-three-keys", func() *built {
+		hd := multiKeyHandle(jwt.HS256Template(), jwt.RawHS256Template(), jwt.HS256Template())
+		mk := func() jwt.MAC { return must(jwt.NewMAC(hd)) }
+		val := jwtValidator()
+		tok := func(i int, sub string) string {
+			return must(must(jwt.NewMAC(singleKeyHandleOf(hd, i))).ComputeMACAndEncode(jwtRaw(sub)))
+		}
+		t0, t1, t2 := tok(0, "by-key-0"), tok(1, "by-key-1"), tok(2, "by-key-2")
+		ver := func(n, tk string) call {
+			return call{"VerifyMACAndDecode(" + n + ")", func(sh any) string { return renderJWT(sh.(jwt.MAC).VerifyMACAndDecode(tk, val)) }}
+		}
+		return &built{newShared: func() any { return mk() },
+			threads: threads22(ver("key2", t2), ver("key0", t0), ver("key1", t1), ver("key2", t2)),
+			probes:  []call{ver("key0", t0), ver("key1", t1), ver("key2", t2)}}
+	})
+}
+
+// multiKeyVerifyScen: signature verifier / hybrid decrypter / DAEAD / streaming over keysets of three keys where
+// the inputs come from every key position.
+func multiKeyClassScen() {
+	add("signature-three-keys-verify", func() *built {
+		priv := multiKeyHandle(signature.ED25519KeyTemplate(), signature.ED25519KeyWithoutPrefixTemplate(), signature.ECDSAP256KeyTemplate())
+		pub := must(priv.Public())
+		mk := func() tink.Verifier { return must(signature.NewVerifier(pub)) }
+		sig := func(i int, m []byte) []byte {
+			return must(must(signature.NewSigner(singleKeyHandleOf(priv, i))).Sign(m))
+		}
+		s0, s1, s2 := sig(0, msgA), sig(1, msgB), sig(2, msgC)
+		ver := func(n string, s, m []byte) call {
+			return call{"Verify(" + n + ")", func(sh any) string { return render(nil, sh.(tink.Verifier).Verify(s, m)) }}
+		}
+		return &built{newShared: func() any { return mk() },
+			threads: threads22(ver("key2", s2, msgC), ver("key0", s0, msgA), ver("key1", s1, msgB), ver("key2", s2, msgC)),
+			probes:  []call{ver("key0", s0, msgA), ver("key1", s1, msgB), ver("key1-wrong-msg", s1, msgA)}}
+	})
+	add("hybrid-three-keys-decrypt", func() *built {
+		priv := multiKeyHandle(hybrid.DHKEM_X25519_HKDF_SHA256_HKDF_SHA256_AES_128_GCM_Key_Template(), hybrid.DHKEM_X25519_HKDF_SHA256_HKDF_SHA256_AES_128_GCM_Raw_Key_Template(), hybrid.ECIESHKDFAES128GCMKeyTemplate())
+		mk := func() tink.HybridDecrypt { return must(hybrid.NewHybridDecrypt(priv)) }
+		enc := func(i int, m []byte) []byte {
+			return must(must(hybrid.NewHybridEncrypt(must(singleKeyHandleOf(priv, i).Public()))).Encrypt(m, adA))
+		}
+		c0, c1, c2 := enc(0, msgA), enc(1, msgB), enc(2, msgC)
+		dec := func(n string, c []byte) call {
+			return call{"Decrypt(" + n + ")", func(sh any) string { return render(sh.(tink.HybridDecrypt).Decrypt(c, adA)) }}
+		}
+		return &built{newShared: func() any { return mk() },
+			threads: threads22(dec("key2", c2), dec("key0", c0), dec("key1", c1), dec("key2", c2)),
+			probes:  []call{dec("key0", c0), dec("key1", c1)}}
+	})
+	add("streaming-two-keys-decrypt", func() *built {
+		hd := multiKeyHandle(streamingaead.AES128GCMHKDF4KBKeyTemplate(), streamingaead.AES256CTRHMACSHA256Segment4KBKeyTemplate())
+		mk := func() tink.StreamingAEAD { return must(streamingaead.New(hd)) }
+		encrypt := func(i int, m []byte) []byte {
+			var buf bytes.Buffer
+			w := must(must(streamingaead.New(singleKeyHandleOf(hd, i))).NewEncryptingWriter(&buf, adA))
+			must(w.Write(m))
+			if err := w.Close(); err != nil {
+				panic(err)
+			}
+			return buf.Bytes()
+		}
+		c0, c1 := encrypt(0, msgB), encrypt(1, ref.Pattern(2, 300))
+		dec := func(n string, c []byte) call {
+			return call{"decrypt-stream(" + n + ")", func(sh any) string {
+				r, err := sh.(tink.StreamingAEAD).NewDecryptingReader(bytes.NewReader(c), adA)
+				if err != nil {
+					return "ERR:" + err.Error()
+				}
+				return render(io.ReadAll(r))
+			}}
+		}
+		return &built{newShared: func() any { return mk() },
+			threads: threads22(dec("key1", c1), dec("key0", c0), dec("key0", c0), dec("key1", c1)),
+			probes:  []call{dec("key0", c0), dec("key1", c1)}}
 	})
 }
 
@@ -604,6 +721,8 @@ func registerScenarios() {
 	streamScen("aesctrhmac", streamingaead.AES128CTRHMACSHA256Segment4KBKeyTemplate())
 	jwtMACScen()
 	jwtSigScen()
+	jwtMultiKeyScen()
+	multiKeyClassScen()
 	derivationScen()
 	handleScen()
 	registryScen()
